@@ -517,6 +517,8 @@ PROBES = [
     ("vecd 4", ["sadd S0 0 1/1", "sadd S0 1 2/1", "sadd S0 2 3/1", "sadd S0 3 4/1", "sadd S0 1 5/1", "srmr S0 1 3"]),
     ("vecd 4", ["sadd S0 0 1/1", "sadd S0 1 2/1", "sadd S0 2 3/1", "srmr S0 1 2"]),
     ("vecd 4", ["xset X0 3 1/1", "xset X0 1 1/1", "xset X1 1 1/1", "xset X1 3 1/1", "xdot X0 X1"]),
+    ("vecd 4", ["sadd S0 0 1/1", "sadd S1 2 3/1", "sappend S0 S1"]),
+    ("vecr 4", ["sadd S0 0 1/1", "sadd S1 2 3/1", "sappend S0 S1"]),
     ("lprs 2 4", ["add 0/1 1/1 2/1 0 1/1", "add 3/1 4/1 5/1 1 1/1", "add 6/1 7/1 8/1 2 1/1", "rmn 0"]),
     ("lpcs 2 4", ["add 0/1 1/1 2/1 0 1/1", "add 3/1 4/1 5/1 1 1/1", "add 6/1 7/1 8/1 2 1/1", "rmn 0"]),
     ("svs 2 4", ["add", "add", "copy"]),
@@ -658,6 +660,7 @@ CANON = [
     (r"d?idx:rmr:.*", "idxset-remove-range-at-end"),
     (r"ar:insert:.*", "array-insert-off-by-one"),
     (r"da:remax:.*", "dataarray-remax-below-size"),
+    (r"vec[dr]:sappend:.*", "dsvector-add-svector-clears"),
 ]
 
 
